@@ -347,6 +347,24 @@ def rsafe (buf : Bytes) : List Op → Prop
   | .read _ :: ops => rsafe buf ops
   | .close :: ops => rsafe buf ops
 
+instance (buf extra : Bytes) : Decidable (noFatal buf extra) := by unfold noFatal; exact inferInstance
+
+def decRsafe : (buf : Bytes) → (ops : List Op) → Decidable (rsafe buf ops)
+  | _, [] => isTrue trivial
+  | buf, .feed chunk :: ops =>
+    match (inferInstance : Decidable (noFatal buf chunk)), decRsafe (parseAll doipCutter (buf ++ chunk)).2 ops with
+    | isTrue a, isTrue b => isTrue ⟨a, b⟩
+    | isFalse a, _ => isFalse (fun h => a h.1)
+    | _, isFalse b => isFalse (fun h => b h.2)
+  | _, .eof :: _ => isFalse (fun h => h)
+  | buf, .advance _ :: ops => decRsafe buf ops
+  | buf, .activate _ _ :: ops => decRsafe buf ops
+  | buf, .write _ _ :: ops => decRsafe buf ops
+  | buf, .read _ :: ops => decRsafe buf ops
+  | buf, .close :: ops => decRsafe buf ops
+
+instance (buf : Bytes) (ops : List Op) : Decidable (rsafe buf ops) := decRsafe buf ops
+
 /-- the clock after `ops` -/
 def rnow (now : Nat) : List Op → Nat
   | [] => now
